@@ -85,13 +85,32 @@ impl<'a> Run<'a> {
             for perm in [false, true] {
                 let auth = if perm { permuted(&spec.authorizer, hk) } else { spec.authorizer.clone() };
                 libeval::install(hk);
+                let mut evaluated: Option<Authorizer> = None;
                 let sig = match libeval::build_authorizer(Some(biscuit), &auth, spec.limits) {
-                    Ok(mut a) => run_all(&mut a, &spec.queries),
+                    Ok(mut a) => {
+                        let s = run_all(&mut a, &spec.queries);
+                        evaluated = Some(a);
+                        s
+                    }
                     Err(e) => format!("build:{e}"),
                 };
                 how.push((format!("hash_key={hk} permuted={perm}"), sig.clone()));
                 seen.insert(sig);
                 self.stats.oracle_evals += 1;
+                // the evaluated authorizer, saved under this hash order and restored under
+                // another one, is the same authorizer
+                if let (Some(a), false) = (evaluated, perm) {
+                    if let Ok(bytes) = a.to_raw_snapshot() {
+                        libeval::install(hk.wrapping_add(0x5eed));
+                        if let Ok(mut r) = Authorizer::from_raw_snapshot(&bytes) {
+                            let sig = run_all(&mut r, &spec.queries);
+                            how.push((format!("hash_key={hk} evaluated, snapshot, restore"), sig.clone()));
+                            seen.insert(sig);
+                            self.stats.oracle_evals += 1;
+                            self.stats.bump("c11.evaluated_snapshot_restored");
+                        }
+                    }
+                }
             }
         }
         // clone, and snapshot -> restore, under the base key
@@ -132,7 +151,8 @@ impl<'a> Run<'a> {
             } else {
                 "cause=unknown"
             };
-            let only_error_vs_value = seen.iter().all(|s| s.contains("ExprError") || s.contains("Execution") || s.starts_with("D("));
+            let only_error_vs_value = seen.iter().all(|s| s.contains("ExprError") || s.contains("Execution") || s.starts_with("D("))
+                && seen.iter().any(|s| s.contains("ExprError") || s.contains("Execution"));
             let mut detail = format!(
                 "slot {token} verifier {verifier}: {} distinct outcomes for one (token, authorizer, limits); {cause}{}; ",
                 seen.len(),
